@@ -9,7 +9,7 @@ LEVEL = "proof"
 PROPERTIES_MODULE = "Properties.C20"
 COQ_TARGETS = ["Properties/C20.vo", "Model/Dispatch.vo"]
 THEOREMS = ["C20_source_flag", "C20_parse_ok_contains_close", "C20_torn_file_rejected", "C20_reload_torn",
-            "C20_reload_missing_file", "C20_reload_never_panics"]
+            "C20_reload_missing_file", "C20_reload_never_panics", "C20_roundtrip", "C20_number_token_lexed_whole"]
 AXIOMS_ALLOWED = []
 TRANSLATORS = [("flags-json", sklib.translate_flags_json)]
 TRUSTED_BASE = [
@@ -106,6 +106,13 @@ def correspond(run):
         if c["missing"] != 1:
             run.violation("missing-file", "reload_json on a directory without parameters.json does not return Err (class %s)" % c["missing"],
                           {"kind": "impl-input", "input": {}, "observed": c["missing"]})
+        ow = c.get("overwrite")
+        if ow is not None and not (ow["dumped"] and ow["class"] == 0 and ow["same"]):
+            run.violation("dump-over-existing-file", "dump_json into a directory that already holds a longer parameters.json, then "
+                          "reload_json: class %s (0 = parameters), same as dumped: %s; file now: %r" % (ow["class"], ow["same"], ow["file"][:120]),
+                          {"kind": "impl-input", "input": {"first_dump": "b=1.2345678901234567 m=2^64-1 a=19.876543210987654 q=2^64-2",
+                                                           "second_dump": {"b_bits": c["b"], "m": c["m"], "a_bits": c["a"], "q": c["q"]}},
+                           "observed": ow})
         if rt["class"] == 0:
             if not (rt["m_same"] and rt["q_same"]):
                 run.violation("roundtrip-int", "m or q changed by dump/reload", {"kind": "impl-input", "input": {"m": c["m"], "q": c["q"]}, "observed": rt})
@@ -119,7 +126,7 @@ def correspond(run):
                   [{"file": bytes(c["bytes"]).decode("latin1"), "roundtrip": c["roundtrip"]} for c in cases[:2]],
                   rule="random tuples (b, m, a, q): short and 17-digit floats, m and q from 0 to 2^64-1; the dumped bytes, every prefix of "
                        "every dumped file (the crash point), and 24 edited files per tuple (whitespace, reordering, unknown / duplicate / "
-                       "missing fields, trailing bytes, wrong types, deletions); non-trivial: one per tuple plus a quarter of the prefixes",
+                       "missing fields, trailing bytes, wrong types, deletions), and a dump over an existing longer file; non-trivial: one per tuple plus a quarter of the prefixes",
                   extra={"tuples": len(cases), "prefixes": nprefix, "edited_files": nedit, "outside_modelled_subset": unsupported,
                          "floats_reloaded_1ulp_off": off})
     run.oblige("correspondence:params-json", "correspondence", not bad, "%d differences; first: %s" % (len(bad), json.dumps(bad[:2])[:600]))
